@@ -147,7 +147,7 @@ func (d dagWriter) NewRetrieve() Retrieve {
 func (d dagWriter) retrieveOutgoingRelationships(ctx context.Context, key ID) ([]Resource, error) {
 	var relationships []Relationship
 	if err := d.relationshipTable.NewRetrieve().
-		WherePrefix([]byte(key.String())).
+		WherePrefix([]byte(key.String() + relationshipKeySep)).
 		Entries(&relationships).
 		Exec(ctx, d.tx); err != nil {
 		return nil, err
